@@ -83,6 +83,8 @@ Handler(d, vals, q) ==
     [] d.beh.k = "const" -> [ok |-> TRUE, v |-> d.beh.v, q |-> q]
     [] d.beh.k = "echo"  -> [ok |-> TRUE, v |-> ArgToResp(vals[d.beh.i + 1]), q |-> q]
     [] d.beh.k = "fail"  -> [ok |-> FALSE, n |-> d.beh.n, txt |-> d.beh.txt, q |-> q]
+    [] d.beh.k = "table" -> [ok |-> TRUE, v |-> d.beh.vals[SmallNat(DigitVals(vals[1].d), 100000) + 1], q |-> q]
+    [] d.beh.k = "float" -> [ok |-> TRUE, v |-> [t |-> "flt", ty |-> d.beh.ty, bits |-> vals[1].d], q |-> q]
     [] d.beh.k = "version" -> [ok |-> TRUE, v |-> [t |-> "chr", b |-> VersionTxt], q |-> q]
     [] d.beh.k = "errcount" -> [ok |-> TRUE, v |-> IntResp(QCount(q)), q |-> q]
     [] d.beh.k = "errnext" ->
@@ -144,7 +146,7 @@ FaultAlts(cfg, st, obs, emb, nOk(_)) ==
 \* that decodes to v followed by NL, then a `flush`.  mode "proc": the value is owed to the
 \* transport.  A response that does not fit the writer's remaining room: free.
 RespAlts(cfg, st, obs, v, mode, at) ==
-  LET need == Len(Encode(v)) + 1 IN
+  LET need == IF v.t = "flt" THEN 400 ELSE Len(Encode(v)) + 1 IN
   IF st.room >= 0 /\ need > st.room THEN {[st |-> Freed(st), cont |-> "abort"]}
   ELSE IF mode = "proc"
        THEN {[st |-> [st EXCEPT !.owed = Append(@, [v |-> v, at |-> at]),
